@@ -258,11 +258,17 @@ impl<T: BuildSchema> BuildSchema for [T] {
 impl<T: BuildSchema> BuildSchema for Option<T> {
 	fn append_schema(builder: &mut SchemaBuilder) {
 		let reserved_schema_key = builder.reserve();
-		let new_node = Union::new(vec![
-			builder.find_or_build::<()>(),
-			builder.find_or_build::<T>(),
-		])
-		.into();
+		let null = builder.find_or_build::<()>();
+		let inner = builder.find_or_build::<T>();
+		let variants = match &builder.nodes[inner.idx()].type_ {
+			RegularType::Union(union) => std::iter::once(null)
+				.chain(union.variants.iter().copied().filter(|v| {
+					!matches!(builder.nodes[v.idx()].type_, RegularType::Null)
+				}))
+				.collect(),
+			_ => vec![null, inner],
+		};
+		let new_node = Union::new(variants).into();
 		builder.nodes[reserved_schema_key] = new_node;
 	}
 
